@@ -66,11 +66,12 @@ class ShocStandard(ArakawaC):
     @cached_property
     def time_coordinate(self) -> xarray.DataArray:
         name = 't'
-        try:
-            return self.dataset[name]
-        except KeyError:
+        # ``dataset[name]`` makes up an index for a dimension without a coordinate variable,
+        # that is not a time coordinate.
+        if name not in self.dataset.variables:
             raise NoSuchCoordinateError(
                 f"SHOC dataset did not have expected time coordinate {name!r}")
+        return self.dataset[name]
 
     def drop_geometry(self) -> xarray.Dataset:
         dataset = super().drop_geometry()
@@ -133,8 +134,9 @@ class ShocSimple(CFGrid2D):
     @cached_property
     def time_coordinate(self) -> xarray.DataArray:
         name = 'time'
-        try:
-            return self.dataset[name]
-        except KeyError:
+        # ``dataset[name]`` makes up an index for a dimension without a coordinate variable,
+        # that is not a time coordinate.
+        if name not in self.dataset.variables:
             raise NoSuchCoordinateError(
                 f"SHOC dataset did not have expected time coordinate {name!r}")
+        return self.dataset[name]
